@@ -498,3 +498,32 @@ def c04(tier):
                         us.append(U(f"refenc:p{phys}:v{ver}:t{nm}-{pf}-{dt}:pol{a}{b}", "refenc", "refenc",
                                     dict(phys=phys, version=ver, names=nm, prefixes=pf, datatypes=dt, fixed_pol=[a, b] if tier != "quick" else [a, b, (a + 1) % 3], ropt=(tier != "quick" or a == 0)), timeout=600))
     return us + [twin(us[0]), twin(us[-1])]
+
+
+def reframe_nrows(integ, phys, prefixes=4):
+    import importlib
+    m = importlib.import_module("vpkg.harness.reframe")
+    m.P = dict(integ=integ, phys=phys, prefixes=prefixes)
+    return len(m.base_rows(phys, integ == "rdflib")[0])
+
+
+@prop("C07", functions=["pyjelly/parse/ioutils.py:get_options_and_frames", "pyjelly/parse/ioutils.py:frame_iterator", "pyjelly/parse/decode.py:Decoder.iter_rows",
+                        "pyjelly/integrations/generic/parse.py:parse_jelly_flat", "pyjelly/integrations/generic/parse.py:parse_jelly_grouped", "pyjelly/integrations/generic/parse.py:parse_triples_stream",
+                        "pyjelly/integrations/generic/parse.py:parse_quads_stream", "pyjelly/integrations/rdflib/parse.py:parse_jelly_flat", "pyjelly/integrations/rdflib/parse.py:parse_jelly_grouped",
+                        "pyjelly/integrations/generic/serialize.py:grouped_stream_to_frames", "pyjelly/integrations/rdflib/serialize.py:grouped_stream_to_frames", "pyjelly/serialize/flows.py:GraphsFrameFlow.frame_from_graph",
+                        "pyjelly/serialize/flows.py:DatasetsFrameFlow.frame_from_dataset"],
+      bounds={"quick": {"reframe": "3-statement valid streams (TRIPLES/QUADS/GRAPHS, 8-14 rows); one symbolic boolean per row gap: every cut vector for streams of <= 9 rows, every vector with at most 2-3 (thorough 4) cuts for longer ones; empty frame in front and/or in the middle, metadata maps on first/last frame; both integrations",
+                        "grouped_ser": "3 input sinks with 0..2 statements each (symbolic), every grouped logical type of the physical type, one shared Stream; both integrations"}},
+      outside="longer streams (per-row argument: one Decoder instance, iter_rows per frame); more than 3 input sinks",
+      explanation="H-REFRAME")
+def c07(tier):
+    us = []
+    for integ in ("generic", "rdflib"):
+        for phys in (1, 2, 3):
+            n = reframe_nrows(integ, phys)
+            for a in (False, True):
+                for b in (False, True):
+                    us.append(U(f"reframe:{integ}:p{phys}:c{int(a)}{int(b)}", "reframe", "reframe",
+                                dict(integ=integ, phys=phys, nrows=n, fixcuts=[a, b], maxcuts=None if n <= 9 else ((2 if n > 11 else 3) if tier == "quick" else 4), tie=(tier == "quick")), timeout=900))
+            us.append(U(f"grouped_ser:{integ}:p{phys}", "reframe", "grouped_ser", dict(integ=integ, phys=phys), timeout=600))
+    return us + [twin(us[0]), twin(us[1])]
